@@ -64,7 +64,8 @@ def run_units(units, jobs=None):
     if jobs <= 1 or len(_UNITS) <= 1:
         return [_run_unit(i) for i in order]
     ctx = multiprocessing.get_context("fork")
-    with ctx.Pool(min(jobs, len(_UNITS))) as pool:
+    # one fresh fork per unit: ttlvsym units patch classes process-wide
+    with ctx.Pool(min(jobs, len(_UNITS)), maxtasksperchild=1) as pool:
         return pool.map(_run_unit, order, chunksize=1)
 
 
@@ -150,13 +151,20 @@ def run_property(prop, tier="quick", repo="/repo", seed=0, update_baseline=False
         if o["bounded"]:
             bounded_units.append(o["unit"])
         for k, v in o["extra"].items():
-            extra.setdefault(k, []).append(v) if not isinstance(v, dict) else extra.setdefault(k, {}).update(v)
+            if isinstance(v, dict):
+                extra.setdefault(k, {}).update(v)
+            elif isinstance(v, list):
+                extra.setdefault(k, []).extend(v)
+            elif isinstance(v, (int, float)):
+                extra[k] = extra.get(k, 0) + v
+            else:
+                extra.setdefault(k, []).append(v)
     if errors:
         for u, e in errors:
             print("CHECKER-ERROR unit=%s\n%s" % (u, e))
         return 3
     # ---- classify obligations
-    bounded_names = set()
+    bounded_names = set(extra.pop("bounded_obligations", []))
     for o in outs:
         if o["bounded"]:
             for r in o["results"]:
@@ -292,8 +300,11 @@ def run_property(prop, tier="quick", repo="/repo", seed=0, update_baseline=False
                        "z3_max_s": round(stats["z3_max"], 2), "cvc5_calls": stats["cvc5_calls"],
                        "cvc5_time_s": round(stats["cvc5_time"], 2),
                        "discharged_by_backend": stats["by_backend"], "solver_unknown": stats["unknown"]},
-            "bounded_checks": {"units": bounded_units, "obligations": sorted(bounded_ok),
-                               "note": "bounded stand-ins; NOT counted in obligations/discharged"},
+            "bounded_checks": {"units": bounded_units, "count": len(bounded_ok),
+                               "obligations": sorted(bounded_ok)[:400],
+                               "note": "bounded stand-ins (list length, pruned presence products, sampled "
+                                       "discriminator domains, byte-level instances); NOT counted in "
+                                       "obligations/discharged"},
             "covers_reached": len([k for k, v in covers.items() if v]),
             "undecided": undecided,
             "samples": samples,
@@ -304,6 +315,8 @@ def run_property(prop, tier="quick", repo="/repo", seed=0, update_baseline=False
         "wall_s": round(wall, 2),
         "violations": violations,
     }
+    if "ttlv_samples" in extra:
+        extra["ttlv_samples"] = extra["ttlv_samples"][:8]
     ev["coverage"].update(extra)
     os.makedirs(os.path.join(VERIF, "evidence"), exist_ok=True)
     with open(os.path.join(VERIF, "evidence", prop + ".json"), "w") as f:
